@@ -8,12 +8,12 @@ From V Require Import Model.Registry Harness.Cmp.
 Record case := mk_case { c_q : quirks; c_events : list event; c_obs : list result }.
 
 Definition otarget_eqb := option_eqb target_eqb.
-Definition err_eqb (a b : err) : bool :=
-  match a, b with
-  | ETypeError, ETypeError | EValueError, EValueError | EDaemonError, EDaemonError
-  | EAttributeError, EAttributeError | EUnknownObject, EUnknownObject => true
-  | _, _ => false
-  end.
+(* which exception class a refusal uses (TypeError / ValueError / DaemonError) is incidental to the property:
+   the three count as the same outcome "refused"; an AttributeError out of unregister and "the daemon does not
+   know this id" stay distinct outcomes *)
+Definition err_group (e : err) : nat :=
+  match e with ETypeError | EValueError | EDaemonError => 0 | EAttributeError => 1 | EUnknownObject => 2 end.
+Definition err_eqb (a b : err) : bool := Nat.eqb (err_group a) (err_group b).
 Definition subset (a b : list ident) : bool := forallb (fun x => existsb (ident_eqb x) b) a.
 (* registered() is compared as a set of the same size (dict order is not part of the property) *)
 Definition ids_eqb (a b : list ident) : bool := subset a b && subset b a && Nat.eqb (length a) (length b).
